@@ -12,6 +12,7 @@ import (
 	"os"
 	"os/exec"
 	"path/filepath"
+	"sort"
 	"strings"
 	"syscall"
 
@@ -230,11 +231,24 @@ func recording(inner snippet.Snippet, into *strings.Builder) snippet.Snippet {
 	})
 }
 
-func render(c gengo.Context, pieces []Piece, gen, typ string, st *state, into *strings.Builder) {
+func render(c gengo.Context, pieces []Piece, gen, typ string, st *state, into *strings.Builder, obj *types.TypeName) {
 	for _, p := range pieces {
 		text := expand(p.Text, gen, typ, st)
 		var sn snippet.Snippet
 		switch p.Kind {
+		case "docecho":
+			// prints what gengo reports about the type: doc lines and (sorted) tags
+			tags, doc := c.Doc(obj)
+			keys := make([]string, 0, len(tags))
+			for k := range tags {
+				keys = append(keys, k)
+			}
+			sort.Strings(keys)
+			var tb strings.Builder
+			for _, k := range keys {
+				fmt.Fprintf(&tb, " %s=%q", k, tags[k])
+			}
+			sn = snippet.Sprintf("\n%T\nvar _"+gen+"_doc_"+typ+" = %v\n", snippet.Comment(fmt.Sprintf("%s:%s doc=%q", typ, tb.String(), doc)), doc)
 		case "block":
 			sn = snippet.Block(text)
 		case "t":
@@ -368,7 +382,7 @@ func generate(s *Script, st *state, c gengo.Context, obj *types.TypeName, alias 
 		PkgScope: obj.Parent() == obj.Pkg().Scope(), IsAlias: obj.IsAlias(), Instance: st.instance(), Err: act.Err,
 	}
 	var into strings.Builder
-	render(c, act.Render, s.Name, obj.Name(), st, &into)
+	render(c, act.Render, s.Name, obj.Name(), st, &into, obj)
 	st.seen[key] = true
 	call.Rendered = into.String()
 	idx := len(calls)
@@ -380,7 +394,7 @@ func generate(s *Script, st *state, c gengo.Context, obj *types.TypeName, alias 
 			dc := Call{Seq: len(calls), Kind: "defer", Gen: s.Name, Pkg: c.Package("").Pkg().Path(), TypePkg: obj.Pkg().Path(), Type: typ, Instance: st.instance(),
 				DeferIdx: i, FileUnchanged: outFileUnchanged(c, s.Name), Err: d.Err}
 			var into strings.Builder
-			render(c, d.Render, s.Name, typ, st, &into)
+			render(c, d.Render, s.Name, typ, st, &into, obj)
 			dc.Rendered = into.String()
 			calls = append(calls, dc)
 			return toErr(d.Err, fmt.Sprintf("defer %d of %s", i, key))
